@@ -89,8 +89,7 @@ theorem api_hands_the_stored_dataset_unchanged_to_every_solver :
     Gen.solveTopLevel = ["self._check_dataset()", "orders = self._check_orders(max_order, orders)", "<dispatch>",
                          "return self"]
     ∧ Gen.solverDatasetArgs = List.replicate 6 ["self._displacements", "self._forces"]
-    ∧ Gen.solverBasisArgs = ["basis_set", "basis_set", "basis_set", "[basis_set_o2,basis_set_o3]",
-                             "[basis_set_o3,basis_set_o4]", "[basis_set_o2,basis_set_o3,basis_set_o4]"]
+    ∧ Gen.solverBasisArgs = ["2", "3", "4", "[2,3]", "[3,4]", "[2,3,4]"]
     ∧ Gen.solveBranchKinds = [["basis", "solve", "select"], ["basis", "solve", "select"], ["basis", "solve", "select"],
                               ["basis", "basis", "solve", "select", "store", "store"],
                               ["basis", "basis", "solve", "select", "store", "store"],
